@@ -20,7 +20,7 @@ CHUNK = 100
 DRIVER_ERR = eng.DRIVER_ERR
 K = dict(attr_guards=0.35, cbs=0.55, conv=0.4, guards=0.5, guard_max=2, validators=0.3, listeners=(1, 4), multi_prov=0.55, sends=0.05,
          raises=0.03, multi_event=0.4, p_async=0.0, rtc_false=0.1, ops=(3, 10), p_construct=0.0, share_groups=0.1,
-         falsy_model=0.15, inst_listeners=0.3)
+         falsy_model=0.15, inst_listeners=0.3, lstyles=0.35, stateid_names=0.25)
 
 
 def add_late(sc, rng):
@@ -221,7 +221,7 @@ def generate(rng, tier):
     pr = []
     for _ in range(npair):
         # behaviours independent of call counts: the driver's counters are shared by both instances
-        sc = enggen.gen_scenario(rng, dict(K, sends=0.0, raises=0.0, rtc_false=0.0, scripts=(0, 0), attr_guards=0.0))
+        sc = enggen.gen_scenario(rng, dict(K, sends=0.0, raises=0.0, rtc_false=0.0, scripts=(0, 0), attr_guards=0.0, lstyles=0.0))
         sc["probe"] = "pair"
         pr.append(sc)
     pr.append({"probe": "d11"})
